@@ -4,8 +4,8 @@ from mc import worlds as W
 from mc.monitors2 import SummaryGroupBy
 
 LEVEL = 'model_checking'
-NAMES = ['W_sum']
-D = W.depths_for(NAMES, quick=2, thorough=3)
+NAMES = ['W_sum', 'W_sumsum']
+D = W.depths_for(NAMES, quick=2, thorough=3, overrides={'quick': {'W_sum': 1}, 'thorough': {'W_sum': 2}})
 P = HistProp('C12', lambda t: W.make(NAMES), lambda w, t: [SummaryGroupBy()], D,
              rule='all histories over W_sum (source edits, regrouping, renames/type changes/removal '
                   'of group-by sources, detach, removals in the referenced table); after every '
